@@ -2,7 +2,11 @@
 
 package leader
 
-import "time"
+import (
+	"time"
+
+	"github.com/nats-io/nats.go"
+)
 
 // vpH_C06_T_vacancy: a follower next to a live record; NO watch notification of the vacancy is delivered;
 // the owner shuts down (record deleted) or crashes (record expires) at a symbolic instant; the follower must
@@ -152,4 +156,41 @@ func vpH_C06_T_restart_stuck() {
 	vpCover("C06.restart-stuck")
 	vpAssert("C06.no-give-up", s.e.IsLeader() && s.cb.promotes >= 1)
 	vpAssert("C06.no-give-up:time", vpImplies(s.cb.promotes >= 1, s.cb.promoteAt <= tv+int64(600*time.Millisecond)))
+}
+
+// vpH_C06_T_vacancy_after_reconnect: connection monitoring is enabled; the follower sees a disconnect and a
+// reconnect notification (a blip); later the owner's record vanishes without any watch notification. The
+// periodic check must still find the vacancy: leader within 500 ms + 100 ms.
+func vpH_C06_T_vacancy_after_reconnect() {
+	H := time.Second
+	vpSetOpt("rand-fixed", 1)
+	st := vpNewStore("g", 0)
+	st.write("env:other", "create", vpRecMk("other", "tok-other", 0), false, 0)
+	kv := vpHandle(st, "a")
+	conn := &nats.Conn{}
+	cfg := vpBaseConfig("a", H, 3*H)
+	cfg.ValidationInterval = time.Hour
+	e := vpMustNew(&vpConnProvider{kv: kv, conn: conn}, cfg)
+	cb := &vpCallbacks{}
+	cb.install(e)
+	_ = e.Start(vpRootCtx())
+	time.Sleep(700 * time.Millisecond)
+	vpQuiesce()
+	vpAssert("harness.monitor-wired", conn.Opts.DisconnectedCB != nil && conn.Opts.ReconnectedCB != nil)
+	if vpChoose("blip", 2) == 1 {
+		conn.Opts.DisconnectedCB(conn)
+		time.Sleep(200 * time.Millisecond)
+		conn.Opts.ReconnectedCB(conn)
+		time.Sleep(300 * time.Millisecond)
+	}
+	vpQuiesce()
+	st.noEvents = true
+	st.write("env:other", "delete", nil, true, 0)
+	tv := vpNow()
+	time.Sleep(1200 * time.Millisecond)
+	vpQuiesce()
+	vpCover("C06.vacancy-after-reconnect")
+	vpAssert("C06.filled-in-bound", e.IsLeader() && cb.promotes >= 1)
+	vpAssert("C06.filled-in-bound:time", vpImplies(cb.promotes >= 1, cb.promoteAt <= tv+int64(600*time.Millisecond)))
+	_ = e.Stop()
 }
